@@ -41,3 +41,40 @@ def special_next(ip, st, it, cell, default):
                            "start+step, ... below stop")
         return outs
     raise U("special iterator " + str(cell.kind))
+
+
+# --------------------------------------------------------------------------- library functions (tier A)
+def lib_deepcopy(ip, st, pos, kws):
+    """copy.deepcopy: a structurally equal value that shares no mutable object with the original"""
+    from .sym import ValCell, LstCell, PyListCell, Tup, Opaque
+    v = pos[0]
+    ip.assumptions.add("library contract (tier A): copy.deepcopy returns an equal value sharing no mutable object with its argument")
+    return [(st, _deep(ip, st, v))]
+
+
+def _deep(ip, st, v):
+    from .sym import ValCell, LstCell, PyListCell, PyDictCell, Tup, Opaque
+    if isinstance(v, Ref):
+        cell = st.heap[v.cid]
+        if isinstance(cell, ValCell):
+            return ip.new_cell(st, ValCell(ip.deref(st, v)))
+        if isinstance(cell, LstCell):
+            return ip.new_cell(st, LstCell(ip.deref(st, v)))
+        if isinstance(cell, PyListCell):
+            return ip.new_cell(st, PyListCell([_deep(ip, st, x) for x in cell.items]))
+        if isinstance(cell, PyDictCell):
+            return ip.new_cell(st, PyDictCell({k: _deep(ip, st, x) for k, x in cell.items.items()}))
+        raise U("deepcopy of " + type(cell).__name__)
+    if isinstance(v, Opaque) and v.sort == "Val":
+        return ip.new_cell(st, ValCell(v.t))
+    if isinstance(v, Tup):
+        return Tup([_deep(ip, st, x) for x in v.items])
+    return v
+
+
+LIB = {("copy", "deepcopy"): lib_deepcopy, "deepcopy": lib_deepcopy}
+
+
+def register(ix):
+    ix.lib.update(LIB)
+
